@@ -5,6 +5,9 @@ CONSTANTS
   SortBeforeFill = TRUE
   OutsideRule = "zero"
   BoundsRule = "running"
+  Layouts = {"k"}
+  KField = "second"
+  HeadFrom = "start"
   QTemps = {200, 250, 300, 400, 700, 1000}
   Export = FALSE
 INVARIANT HTypeOK
@@ -12,4 +15,5 @@ INVARIANT ReaderMatchesTable
 INVARIANT GivenKept
 INVARIANT RowsConvex
 INVARIANT HFits
+INVARIANT EveryLayoutRead
 CHECK_DEADLOCK FALSE
